@@ -1311,6 +1311,17 @@ class FunctionAnalysis:
             i = MUTATING_FUNCS[tgt]
             if i < len(pos):
                 self.write_through(pos[i], n, f"{tgt} writes its argument {i} in place")
+        # library routines that may reuse their input's memory when asked to: overwrite=True / overwrite_a=True / copy=False /
+        # check_finite … (only the overwrite family writes)
+        for kw_ in getattr(n, "keywords", ()) or ():
+            if kw_.arg and kw_.arg.startswith("overwrite") and not (isinstance(kw_.value, ast.Constant) and kw_.value.value in (False, None)):
+                if pos:
+                    roots = [o.root for o in pos[0].is_]
+                    if any(r.startswith("obj:") for r in roots) and any(not r.startswith("obj:") for r in roots):
+                        # a private copy on one path, the caller's object on another (typically: dense input is copied, sparse
+                        # input is passed on, and the library overwrites dense input only): not decided here
+                        continue
+                    self.write_through(pos[0], n, f"{tgt}(..., {kw_.arg}={ast.unparse(kw_.value)}) may overwrite its input in place")
         if tgt in INPLACE_OPERATOR_FUNCS and pos:
             return pos[0]   # the in-place operators hand back their (mutated) first operand
         if tgt == "functools.reduce" and len(pos) >= 2:
@@ -1342,7 +1353,9 @@ class FunctionAnalysis:
                 # np.array(list_of_objects) keeps references to non-numeric elements (object arrays)
                 a0 = pos[0] if pos else FRESH
                 e = elem_of(a0) if (a0.elem is not None and a0.elem.cls) else None
-                return AV(frozenset(), e if e is not None and e.cls else None, "nd")
+                # a private copy made here: named, so that a value which is this copy on one path and the caller's array on
+                # another can be told from one that is the caller's array on every path
+                return AV(frozenset([Origin(self.oa.new_site(n))]), e if e is not None and e.cls else None, "nd")
             return AV(pos[0].is_, pos[0].elem, "nd")
         if tgt in VIEW_FUNCS:
             if pos:
